@@ -100,9 +100,9 @@ type Sim struct {
 	fakeElapsed  time.Duration
 	nextBcast    int
 	// KeyAlias shortens scheduling-point keys (e.g. peer ids -> party names).
-	KeyAlias func(string) string
-	buggify      func(site string) bool
-	holderPark   func(site string) bool
+	KeyAlias   func(string) string
+	buggify    func(site string) bool
+	holderPark func(site string) bool
 }
 
 type parkedTask struct {
@@ -236,6 +236,13 @@ func (s *Sim) parkedActions(add func(Action)) {
 			}
 		}})
 	}
+}
+
+// ParkedCount returns the number of tasks parked at scheduling points.
+func (s *Sim) ParkedCount() int {
+	s.mu.Lock()
+	defer s.mu.Unlock()
+	return len(s.parked)
 }
 
 // ReleaseAllParked opens every gate (teardown).
